@@ -8,7 +8,7 @@ From GA.Gen Require Import Subst.
 From GA.Spec Require Import Local EDNAFULL.
 From GA.Spec Require LocalEnum.
 From GA.Model Require Import SW.
-From GA.Proofs Require Import SWProofs SubstProofs EnumProofs GotohProofs.
+From GA.Proofs Require Import SWProofs SubstProofs EnumProofs GotohProofs TracebackProofs.
 Local Open Scope Z_scope.
 
 (* The validity checker evaluated (in the kernel) on every alignment returned by
@@ -133,11 +133,44 @@ Proof.
 Qed.
 Print Assumptions C09_gotoh_is_optimal.
 
-Definition C09_aligner_statement : Prop :=
+(* ... and the bound is tight: the oracle's value is 0 (no alignment scores above the empty one) or the score of
+   a valid local alignment (sequences without gap characters).  Hence gotoh_best IS the optimal local score. *)
+Theorem C09_gotoh_is_attained :
+  forall (sub : byte -> byte -> Z) opn ext s1 s2,
+  opn <= ext -> ext < 0 ->
+  (forall b, In b s1 -> isgap b = false) -> (forall b, In b s2 -> isgap b = false) ->
+  gotoh_best sub opn ext s1 s2 = 0 \/
+  exists r1 r2 st1 st2 en1 en2, valid_alignment s1 s2 r1 r2 st1 st2 en1 en2 /\
+                                 score_cols sub opn ext r1 r2 0 = gotoh_best sub opn ext s1 s2.
+Proof.
+  intros sub opn ext s1 s2 H1 H2 H3 H4. exact (gotoh_attained sub opn ext H1 H2 s1 s2 H3 H4).
+Qed.
+Print Assumptions C09_gotoh_is_attained.
+
+(* The code model of the aligner (matrix fill + trace-back of align/aligner.go), for EVERY scoring scheme and EVERY pair
+   of non-empty sequences: what it returns is a valid local alignment (rows of one length, no column of two gaps, each
+   row without its gaps is the substring of its sequence between the reported start and end) and
+   matches + mismatches + gaps is the number of columns.  Unbounded (Proofs/TracebackProofs.v: shape of the trace
+   matrix, invariant of the trace-back loop).  Sequences must be non-empty: on an empty sequence the reported end 0 is
+   not an index of it (the CLI rejects such input before the aligner). *)
+Theorem C09_aligner_returns_valid_alignment :
   forall sc s1 s2 r,
-  sc_open sc <= sc_extend sc -> sc_extend sc < 0 -> align_pair false sc s1 s2 = Some r ->
+  s1 <> [] -> s2 <> [] -> align_pair false sc s1 s2 = Some r ->
   valid_alignment s1 s2 (r_row1 r) (r_row2 r) (r_start1 r) (r_start2 r) (r_end1 r) (r_end2 r) /\
-  r_matches r + r_mismatches r + r_gaps r = Z.of_nat (length (r_row1 r)).
+  r_matches r + r_mismatches r + r_gaps r = Z.of_nat (length (r_row1 r)) /\
+  r_length r = Z.of_nat (length (r_row1 r)).
+Proof. exact align_pair_valid. Qed.
+Print Assumptions C09_aligner_returns_valid_alignment.
+
+(* What remains a statement: the returned rows score exactly r_score and r_score is the Gotoh optimum, for all inputs.
+   Proved for the specification side (C09_gotoh_is_optimal, C09_gotoh_is_attained); for the code model it is the
+   finite theorems above and the per-case oracle of Corr/C09.v. *)
+Definition C09_aligner_optimal_statement : Prop :=
+  forall sc s1 s2 r,
+  sc_open sc <= sc_extend sc -> sc_extend sc < 0 -> s1 <> [] -> s2 <> [] ->
+  sc_use_matrix sc = false -> align_pair false sc s1 s2 = Some r ->
+  let sub := fun a b => if beqb a b then sc_match sc else sc_mismatch sc in
+  r_score r = gotoh_best sub (sc_open sc) (sc_extend sc) s1 s2.
 
 Example C09_nonvacuous :
   let sc := mkscheme false 2 (-2) (-20) (-1) in
